@@ -426,6 +426,41 @@ struct HdrSession {
                 if (grows)
                         COUNT("probe.hdr_overflow_resumed");
                 COUNT("probe.gzip_header_read_ok");
+                body_follows(st, false, false);
+        }
+
+        // "stop exactly at the first byte of compressed data": after a completed header read the same state must take the
+        // dictionary (FDICT) and then the deflate data, the way a caller of the stand-alone readers continues
+        void body_follows(struct inflate_state *st, bool zlib, bool fdict)
+        {
+                static const uint8_t body[10] = { 0x01, 0x05, 0x00, 0xfa, 0xff, 'h', 'e', 'l', 'l', 'o' };
+                Slot *sb = g_arena.alloc(sizeof body, place, "body_in", 0, 1), *so = g_arena.alloc(16, PLACE_END, "body_out", fill + 9, 1);
+                Slot *sd = fdict ? g_arena.alloc(24, PLACE_END, "dict", 0, 1) : nullptr;
+                if (!sb || !so || (fdict && !sd))
+                        return;
+                memcpy(sb->data, body, sizeof body);
+                int dr = 0, ret = 0;
+                if (GUARDED(gc, {
+                            if (fdict)
+                                    dr = isal_inflate_set_dict(st, sd->data, 24);
+                            st->crc_flag = zlib ? ISAL_ZLIB_NO_HDR : ISAL_GZIP_NO_HDR;
+                            st->next_in = sb->data;
+                            st->avail_in = sizeof body;
+                            st->next_out = so->data;
+                            st->avail_out = 16;
+                            ret = dr ? 0 : isal_inflate(st);
+                    })) {
+                        report_fault(rr, h, gc.fi, "isal_inflate after a stand-alone header read");
+                        return;
+                }
+                h.rec("hdr_body", { dr, ret, st->avail_out, st->block_state });
+                COUNT("probe.body_after_standalone_header");
+                if (dr) {
+                        rr.fail("C19.read_state", strf("after a completed %s header read (FDICT set) isal_inflate_set_dict returned %d (block_state %d)", zlib ? "zlib" : "gzip", dr, st->block_state));
+                        return;
+                }
+                if (ret != ISAL_DECOMP_OK || st->avail_out != 11 || memcmp(so->data, "hello", 5) || st->block_state != ISAL_BLOCK_FINISH)
+                        rr.fail("C19.read_state", strf("after a completed %s header read the deflate data that follows is not decoded: isal_inflate returned %d, %u bytes out, block_state %d", zlib ? "zlib" : "gzip", ret, 16 - st->avail_out, st->block_state));
         }
 
         void read_zlib(const std::vector<uint8_t> &bytes, bool garbage)
@@ -513,6 +548,7 @@ struct HdrSession {
                         return;
                 }
                 COUNT("probe.zlib_header_read_ok");
+                body_follows(st, true, ref.zl.fdict);
         }
 
         void run()
